@@ -15,8 +15,7 @@ variable (cfg : Cfg) (pre : Prefixes K) (parse : String → Except Err (PExpr K)
 
 theorem invalidate_fresh_find (c : Lut K) (k : String) :
     (invalidate cfg (fresh c)).lut.find? k = c.find? k := by
-  cases hp : cfg.purgeDerived <;> cases hcc : cfg.clearCache <;>
-    simp [invalidate, fresh, hp, hcc, find?_eraseKeys]
+  cases hp : cfg.purgeDerived <;> simp [invalidate, fresh, hp, find?_eraseKeys]
 
 /-- what the fresh registry answers to `Unit(q, registry=fresh)` -/
 theorem fresh_unit (c : Lut K) (q : String) :
@@ -51,19 +50,19 @@ theorem step_sim (c : Lut K) (s : RegState K) (h : Coherent pre parse c s) (op :
   | addInvalid sym => simp only [step, Out.Sim]
   | modifyF sym v =>
     simp only [opSafe] at hsafe
-    have hag := find_sym_agree pre parse c _ sym (invalidate_coherent cfg pre parse c s h) hsafe
+    have hag := find_sym_agree cfg pre parse c _ sym (invalidate_coherent cfg pre parse c s h) hsafe
     have hfr := invalidate_fresh_find cfg c sym
     simp only [step, hag, hfr]
     cases c.find? sym <;> simp only [Out.Sim]
   | modifyQ sym v d own =>
     simp only [opSafe] at hsafe
-    have hag := find_sym_agree pre parse c _ sym (invalidate_coherent cfg pre parse c s h) hsafe
+    have hag := find_sym_agree cfg pre parse c _ sym (invalidate_coherent cfg pre parse c s h) hsafe
     have hfr := invalidate_fresh_find cfg c sym
     simp only [step, hag, hfr]
     cases c.find? sym <;> simp only [Out.Sim]
   | remove sym =>
     simp only [opSafe] at hsafe
-    have hag := find_sym_agree pre parse c _ sym (invalidate_coherent cfg pre parse c s h) hsafe
+    have hag := find_sym_agree cfg pre parse c _ sym (invalidate_coherent cfg pre parse c s h) hsafe
     have hfr := invalidate_fresh_find cfg c sym
     simp only [step, hag, hfr]
     cases c.find? sym <;> simp only [Out.Sim]
@@ -184,7 +183,7 @@ theorem safeRun_repaired (h : List (Op K)) :
 theorem step_objs (s : RegState K) (op : Op K) :
     ∃ l, (step cfg pre parse s op).1.objs = s.objs ++ l := by
   have hinv : (invalidate cfg s).objs = s.objs := by
-    cases hp : cfg.purgeDerived <;> cases hcc : cfg.clearCache <;> simp [invalidate, hp, hcc]
+    cases hp : cfg.purgeDerived <;> simp [invalidate, hp]
   cases op with
   | add sym e => exact ⟨[], by simp [step, hinv]⟩
   | addInvalid sym => exact ⟨[], by simp [step, hinv]⟩
